@@ -186,6 +186,46 @@ def run(ctx, res):
             unaffected = set(nodes) - metam.descendants(d, {n})
             ch = compare(base, out, nodes, unaffected, keys, res, f"function[{n}]", o, stats)
             stats["reforms_with_visible_effect"] += 1 if ch else 0
+        # (iv) the documented list form functions=[policy_functions, replacement], REUSING the caller's function
+        #      collection for successive reforms: each reform must stay local to its own descendants
+        fshared = dict(funcs)
+        snap = {k: id(v) for k, v in fshared.items()}
+        for n in rnd.sample(rule_nodes, 3 if ctx.tier == "quick" else 10):
+            try:
+                repl = make_replacement(funcs[n], 1)
+                if hasattr(funcs[n], "__info__"):
+                    repl.__info__ = dict(funcs[n].__info__)
+                else:
+                    repl.__name__ = n
+                out, _ = engine.simulate(df, o, targets=nodes, functions=[fshared, repl])
+            except Exception as ex:  # noqa: BLE001
+                stats["skipped"][f"{impl.iso(o)}:list:{n}"] = f"replacement run raises {type(ex).__name__}"
+                continue
+            stats["function_reforms"] += 1
+            stats["list_form_reforms"] = stats.get("list_form_reforms", 0) + 1
+            compare(base, out, nodes, set(nodes) - metam.descendants(d, {n}), keys, res, f"function-list[{n}]", o, stats)
+            if {k: id(v) for k, v in fshared.items()} != snap:
+                res.add_violation("caller:functions-modified", f"compute_taxes_and_transfers(functions=[policy_functions, replacement of {n}]) modified the caller's "
+                                  f"function collection ({impl.iso(o)})", dict(kind="functions-modified", date=impl.iso(o), node=n), True)
+                break
+        # (v) in-place reform of a freshly set-up environment (nested values), then a NEW environment: the new one is pristine
+        from _gettsim.policy_environment import set_up_policy_environment
+        import modelio as M
+        import u10_hist
+
+        iso = impl.iso(o)
+        p_first, _ = set_up_policy_environment(iso)
+        before = repr(M.canon_py(p_first))
+        for g in rnd.sample(sorted(p_first), 4):
+            pa, _ = set_up_policy_environment(iso)
+            u10_hist.perturb_inplace(pa[g], 0)
+            pb, _ = set_up_policy_environment(iso)
+            stats["inplace_reforms"] = stats.get("inplace_reforms", 0) + 1
+            if repr(M.canon_py(pb)) != before:
+                bad = [k for k in pb if repr(M.canon_py(pb[k])) != repr(M.canon_py(p_first[k]))]
+                res.add_violation(f"leak:params[{g}]", f"after an in-place reform of params['{g}'] in one environment, a newly set-up environment for {iso} "
+                                  f"differs from a pristine one in groups {bad[:4]}", dict(kind="leak", date=iso, reformed=g, differs=bad), True)
+                break
     res.evaluations += stats["param_reforms"] + stats["function_reforms"] + stats["copies"]
     res.distinct += stats["param_reforms"] + stats["function_reforms"] + stats["copies"]
     res.extra["engine"] = stats
@@ -193,7 +233,7 @@ def run(ctx, res):
                 "bit-identical; (ii) per parameter group (quick: 8 sampled, thorough: all) every finite float leaf is changed (x*1.07+0.5) and "
                 "every column outside descendants(users(group)) — computed on the regenerated graph — must be bit-identical; (iii) per sampled "
                 "rule (thorough: all) the function is replaced by a user function returning original+1 / negation, same check with "
-                "descendants(rule). Also: no mutable object is shared between parameter groups. distinct = distinct (date, reform).")
+                "descendants(rule), also in the list form functions=[policy_functions, replacement] with the collection reused; (v) an in-place reform of nested values in one freshly set-up environment leaves a newly set-up environment pristine. Also: no mutable object is shared between parameter groups. distinct = distinct (date, reform).")
 
 
 def replay(payload):
